@@ -127,7 +127,25 @@ def real_filters(prog, cls):
             vals = [pconc(cls.partition("|")[2], c) for c in a["c"]]
         else:
             vals = [conc(ccls, k) for k in a["c"]]
-        v = vals if a["op"] in ("in", "not in") else vals[0]
+        if a["op"] in ("in", "not in"):
+            # the constants of a set operator may come in any container: list, tuple, set, frozenset, array
+            import numpy as np
+            kind = (len(vals) + sum(int(c) for c in a["c"]) + len(a["col"]) + (0 if a["op"] == "in" else 2)) % 5
+            if kind == 1:
+                v = tuple(vals)
+            elif kind == 2:
+                v = set(vals)
+            elif kind == 3:
+                v = frozenset(vals)
+            elif kind == 4 and vals and not isinstance(vals[0], str):
+                try:
+                    v = np.array(vals)
+                except Exception:  # noqa
+                    v = vals
+            else:
+                v = vals
+        else:
+            v = vals[0]
         return (a["col"], a["op"], v)
     groups = [[atom(a) for a in g] for g in prog["groups"]]
     return groups[0] if prog["flat"] else groups
